@@ -512,9 +512,28 @@ C06_CONFIGS = {
 }
 
 
+CMINX_CFG = """CONSTANT Dev <- {dev}
+CONSTANT MaxFiles = {n}
+CONSTANT Modes <- BothModes
+INIT Init
+NEXT Next
+{invs}
+"""
+
+
 def c06(run):
     import lexh
     q = run.tier == "quick"
+    # the pipeline as one machine (CMinx.tla): fault kinds x file order x input mode, failure propagation
+    invs = ["C06_NoPageForFaulty", "C06_FailsLoudly", "C06_NoPartialView", "StopsAtFirstFault", "Emit"]
+    res = lib.run_tlc("MC_CMinx", CMINX_CFG.format(dev="NoDev", n=3 if q else 4, invs="\n".join("INVARIANT " + i for i in invs)))
+    run.add_tlc("MC_CMinx(files<=%d)" % (3 if q else 4), res)
+    lexh.replay_pipeline(run, res.lines.get("BEH", []))
+    # the model of the code before the repair of F2 violates C06 (kept as a witness that the invariants bite)
+    res0 = lib.run_tlc("MC_CMinx", CMINX_CFG.format(dev="BeforeF2", n=2, invs="INVARIANT C06_FailsLoudly"), want_violation=True, coverage=False)
+    if not res0.violated:
+        raise lib.MachineryError("CMinx.tla: the pre-F2 deviations no longer violate C06_FailsLoudly (vacuous invariant?)")
+    run.notes["pre_F2_model_violates"] = res0.violated
     for name, c in C06_CONFIGS.items():
         res = lib.run_tlc("MC_C05", gen_cfg(c, faults="Faults", maxlen=c[8] if q else c[9]), coverage=False)
         run.add_tlc("MC_C05(%s + faults)" % name, res)
